@@ -508,7 +508,7 @@ func oracle(c CaseIn, o CaseOut, base, baseE plan) verdict {
 			switch {
 			case cls == "setup_or_show", cls == "preamble",
 				cls == "name_check" && c.Scen.Backend == "IOS", // only the last line in front of the prompt is looked at
-				cls == "probe" && cmd == "grep": // only asked whether there is any output
+				cls == "probe" && cmd == "grep":                // only asked whether there is any output
 				pred = "output_of_setup_or_show_command_not_inspected"
 			case cls == "retrieval":
 				pred = "rejected_config_retrieval_parsed_as_configuration"
@@ -1141,7 +1141,7 @@ func evalCases(ctx *Ctx, res *Result, drv *Nadrv, cases []CaseIn, nw int, verbos
 			suspects = append(suspects, i)
 		}
 	}
-	hard := map[int]judged{}   // failures of the oracle in a first run that was run again
+	hard := map[int]judged{} // failures of the oracle in a first run that was run again
 	exitLostTwice := map[int]bool{}
 	// serial phase: the suspects once more, alone, with longer time-outs
 	if len(suspects) > 0 && ctx.Replay == "" {
